@@ -96,30 +96,31 @@ def Pos (width x : Nat) (yI : Int) (plen y : Nat) : Prop :=
 def Done (width x : Nat) (yI : Int) (y : Nat) : Prop :=
   (x = 0 ∧ yI = (y : Int) - 1) ∨ (x = width ∧ yI = (y : Int))
 
-theorem jump16_pos (w width n x : Nat) (yI : Int) (plen y : Nat) (hpos : Pos width x yI plen y)
-    (hn : 1 ≤ n) (hfit : plen + n ≤ width) (hns : ¬ (plen < w ∧ w < plen + n)) (hw : w ≤ width) :
-    jump16 w width n x yI = (plen, (y : Int)) := by
+theorem jump16_pos (width n x : Nat) (yI : Int) (plen y : Nat) (hpos : Pos width x yI plen y)
+    (hn : 1 ≤ n) (hfit : plen + n ≤ width) :
+    jump16 width n x yI = (plen, (y : Int)) := by
   unfold jump16
   rcases hpos with ⟨hx, hy⟩ | ⟨hp0, hx, hy⟩
   · rw [hx, hy]
-    have h1 : ¬ (plen + n > w ∧ plen < w) := by omega
     have h2 : ¬ (plen + n > width) := by omega
-    simp only [h1, if_false, h2]
+    simp only [h2, if_false]
   · rw [hx, hy, hp0]
-    have h1 : ¬ (width + n > w ∧ width < w) := by omega
     have h2 : width + n > width := by omega
-    simp only [h1, if_false, h2, if_true]
+    simp only [h2, if_true]
     congr 1; omega
 
-theorem loop16_nil (w width : Nat) (data : Bytes) (x : Nat) (yI : Int) : loop16 w width [] data x yI = .ok data := by
+theorem loop16_nil (width : Nat) (data : Bytes) (x : Nat) (yI : Int) : loop16 width [] data x yI = .ok data := by
   rw [loop16]; split <;> rfl
 
-theorem loop16_run (w width n : Nat) (v : UInt8) (rest data : Bytes) (x : Nat) (yI : Int) (x0 : Nat) (y0 : Int)
-    (h2 : 2 ≤ n) (h128 : n ≤ 128) (hy : 0 ≤ yI) (hj : jump16 w width n x yI = (x0, y0)) :
-    loop16 w width ((Op.run n v).bytes ++ rest) data x yI =
+theorem loop16_neg (width : Nat) (rest data : Bytes) (x : Nat) (yI : Int) (h : yI < 0) : loop16 width rest data x yI = .ok data := by
+  rw [loop16.eq_def]; simp [h]
+
+theorem loop16_run (width n : Nat) (v : UInt8) (rest data : Bytes) (x : Nat) (yI : Int) (x0 : Nat) (y0 : Int)
+    (h2 : 2 ≤ n) (h128 : n ≤ 128) (hy : 0 ≤ yI) (hj : jump16 width n x yI = (x0, y0)) :
+    loop16 width ((Op.run n v).bytes ++ rest) data x yI =
       match paintRun16 width y0 v n data x0 with
       | .error e => .error e
-      | .ok (data, x) => loop16 w width rest data x y0 := by
+      | .ok (data, x) => loop16 width rest data x y0 := by
   have e1 : (UInt8.ofNat (257 - n)).toNat = 257 - n := by
     simp only [UInt8.toNat_ofNat']; omega
   simp only [Op.bytes, List.cons_append, List.nil_append]
@@ -132,12 +133,12 @@ theorem loop16_run (w width n : Nat) (v : UInt8) (rest data : Bytes) (x : Nat) (
   | error e => rfl
   | ok a => cases a; rfl
 
-theorem loop16_lit (w width : Nat) (bs : Bytes) (rest data : Bytes) (x : Nat) (yI : Int) (x0 : Nat) (y0 : Int)
-    (h1 : 1 ≤ bs.length) (h128 : bs.length ≤ 128) (hy : 0 ≤ yI) (hj : jump16 w width bs.length x yI = (x0, y0)) :
-    loop16 w width ((Op.lit bs).bytes ++ rest) data x yI =
+theorem loop16_lit (width : Nat) (bs : Bytes) (rest data : Bytes) (x : Nat) (yI : Int) (x0 : Nat) (y0 : Int)
+    (h1 : 1 ≤ bs.length) (h128 : bs.length ≤ 128) (hy : 0 ≤ yI) (hj : jump16 width bs.length x yI = (x0, y0)) :
+    loop16 width ((Op.lit bs).bytes ++ rest) data x yI =
       match paintLit16 width bs.length (bs ++ rest) data x0 y0 with
       | .error e => .error e
-      | .ok (data, x, y, r2) => loop16 w width r2 data x y := by
+      | .ok (data, x, y, r2) => loop16 width r2 data x y := by
   have e1 : (UInt8.ofNat (bs.length - 1)).toNat = bs.length - 1 := by
     simp only [UInt8.toNat_ofNat']; omega
   simp only [Op.bytes, List.cons_append]
@@ -148,22 +149,22 @@ theorem loop16_lit (w width : Nat) (bs : Bytes) (rest data : Bytes) (x : Nat) (y
   simp only [e0, e1, e2, if_false]
   split <;> rename_i heq <;> rw [e1, e3, hj] at heq <;> simp only [heq]
 
-/-- one operation of a line: it starts at (or is moved to) the end of the painted prefix and leaves the loop at the new
-    end, or on the next line when a literal filled the line -/
-theorem loop16_op (w width y : Nat) (A B : Bytes) (hA : A.length = y * width) (hw : w ≤ width)
+/-- one operation of a line: it starts at the end of the painted prefix (or is moved there from the end of the line
+    above) and leaves the loop at the new end, or on the next line when a literal filled the line -/
+theorem loop16_op (width y : Nat) (A B : Bytes) (hA : A.length = y * width)
     (o : Op) (hv : o.valid = true) (p rest : Bytes) (x : Nat) (yI : Int) (hpos : Pos width x yI p.length y)
-    (hfit : p.length + o.expand.length ≤ width) (hns : ¬ (p.length < w ∧ w < p.length + o.expand.length)) :
+    (hfit : p.length + o.expand.length ≤ width) :
     ∃ x' yI', ((p.length + o.expand.length < width ∧ x' = p.length + o.expand.length ∧ yI' = (y : Int)) ∨
                (p.length + o.expand.length = width ∧ Done width x' yI' y)) ∧
-      loop16 w width (o.bytes ++ rest) (bufP width A B p) x yI = loop16 w width rest (bufP width A B (p ++ o.expand)) x' yI' := by
+      loop16 width (o.bytes ++ rest) (bufP width A B p) x yI = loop16 width rest (bufP width A B (p ++ o.expand)) x' yI' := by
   have hyI : 0 ≤ yI := by rcases hpos with ⟨_, h⟩ | ⟨_, _, h⟩ <;> omega
   have hlen := expand_length_pos o hv
-  have hj := jump16_pos w width o.expand.length x yI p.length y hpos hlen hfit hns hw
+  have hj := jump16_pos width o.expand.length x yI p.length y hpos hlen hfit
   cases o with
   | lit bs =>
     simp only [Op.valid, Bool.and_eq_true, decide_eq_true_eq] at hv
-    simp only [Op.expand] at hfit hns hj hlen ⊢
-    rw [loop16_lit w width bs rest _ x yI _ _ hv.1 hv.2 hyI hj]
+    simp only [Op.expand] at hfit hj hlen ⊢
+    rw [loop16_lit width bs rest _ x yI _ _ hv.1 hv.2 hyI hj]
     rw [paintLit16_spec width y A B hA bs p rest hfit (by intro h; subst h; simp at hlen)]
     by_cases hfull : p.length + bs.length = width
     · refine ⟨0, (y : Int) - 1, Or.inr ⟨hfull, Or.inl ⟨rfl, rfl⟩⟩, ?_⟩
@@ -172,31 +173,29 @@ theorem loop16_op (w width y : Nat) (A B : Bytes) (hA : A.length = y * width) (h
       simp only [hfull, if_false]
   | run n v =>
     simp only [Op.valid, Bool.and_eq_true, decide_eq_true_eq] at hv
-    simp only [Op.expand, List.length_replicate] at hfit hns hj hlen ⊢
-    rw [loop16_run w width n v rest _ x yI _ _ hv.1 hv.2 hyI hj]
+    simp only [Op.expand, List.length_replicate] at hfit hj hlen ⊢
+    rw [loop16_run width n v rest _ x yI _ _ hv.1 hv.2 hyI hj]
     rw [paintRun16_spec width y v A B hA n p hfit]
     refine ⟨p.length + n, (y : Int), ?_, rfl⟩
     by_cases hfull : p.length + n = width
     · exact Or.inr ⟨hfull, Or.inr ⟨hfull, rfl⟩⟩
     · exact Or.inl ⟨by omega, rfl, rfl⟩
 
-theorem loop16_ops (w width y : Nat) (A B : Bytes) (hA : A.length = y * width) (hw : w ≤ width) (rest : Bytes) :
+theorem loop16_ops (width y : Nat) (A B : Bytes) (hA : A.length = y * width) (rest : Bytes) :
     ∀ (ops : List Op) (p : Bytes) (x : Nat) (yI : Int), Pos width x yI p.length y →
-      (∀ o ∈ ops, o.valid = true) → ops ≠ [] → straddles w p.length ops = false → p.length + (unpack ops).length = width →
+      (∀ o ∈ ops, o.valid = true) → ops ≠ [] → p.length + (unpack ops).length = width →
       ∃ x' yI', Done width x' yI' y ∧
-        loop16 w width (packed ops ++ rest) (bufP width A B p) x yI
-          = loop16 w width rest (bufP width A B (p ++ unpack ops)) x' yI' := by
+        loop16 width (packed ops ++ rest) (bufP width A B p) x yI
+          = loop16 width rest (bufP width A B (p ++ unpack ops)) x' yI' := by
   intro ops
   induction ops with
   | nil => intro p x yI _ _ h; exact absurd rfl h
   | cons o os ih =>
-    intro p x yI hpos hv _ hst hlen
+    intro p x yI hpos hv _ hlen
     have hvo := hv o (by simp)
     have hvos : ∀ o' ∈ os, o'.valid = true := fun o' h => hv o' (by simp [h])
-    simp only [straddles, Bool.or_eq_false_iff, Bool.and_eq_false_iff, decide_eq_false_iff_not] at hst
     simp only [unpack, packed, List.flatMap_cons, List.length_append, List.append_assoc] at hlen ⊢
-    obtain ⟨x1, y1, hcase, heq⟩ := loop16_op w width y A B hA hw o hvo p (List.flatMap Op.bytes os ++ rest) x yI hpos (by omega)
-      (by rcases hst.1 with h | h <;> omega)
+    obtain ⟨x1, y1, hcase, heq⟩ := loop16_op width y A B hA o hvo p (List.flatMap Op.bytes os ++ rest) x yI hpos (by omega)
     rw [heq]
     have hpos1 := expand_length_pos o hvo
     cases os with
@@ -210,7 +209,7 @@ theorem loop16_ops (w width y : Nat) (A B : Bytes) (hA : A.length = y * width) (
       rcases hcase with ⟨hlt, hx1, hy1⟩ | ⟨hfull, _⟩
       · have hp' : Pos width x1 y1 (p ++ o.expand).length y := Or.inl ⟨by simp [hx1], hy1⟩
         obtain ⟨x2, y2, hdone, heq2⟩ := ih (p ++ o.expand) x1 y1 hp' hvos (by simp)
-          (by simpa using hst.2) (by simp only [unpack, List.length_append]; omega)
+          (by simp only [unpack, List.length_append]; omega)
         refine ⟨x2, y2, hdone, ?_⟩
         simp only [unpack, packed] at heq2
         rw [heq2]
@@ -220,20 +219,19 @@ theorem loop16_ops (w width y : Nat) (A B : Bytes) (hA : A.length = y * width) (
 def RowStart (width x : Nat) (yI : Int) (y : Nat) : Prop := Pos width x yI 0 y
 
 /-- all lines of a planar image (`y + 1` of them, top line first) fill the buffer from file row `y` down to 0 -/
-theorem loop16_rows (w width : Nat) (hw : w ≤ width) (hpos : 0 < width) :
+theorem loop16_rows (width : Nat) (hpos : 0 < width) :
     ∀ (opsRows : List (List Op)) (rows : List Bytes) (y : Nat) (B : Bytes) (x : Nat) (yI : Int), RowStart width x yI y →
       validRows opsRows rows = true → rows.length = y + 1 → (∀ r ∈ rows, r.length = width) →
-      (∀ ops ∈ opsRows, straddles w 0 ops = false) →
-      loop16 w width (packed opsRows.flatten) (zeros ((y + 1) * width) ++ B) x yI = .ok (rows.reverse.flatten ++ B) := by
+      loop16 width (packed opsRows.flatten) (zeros ((y + 1) * width) ++ B) x yI = .ok (rows.reverse.flatten ++ B) := by
   intro opsRows
   induction opsRows with
   | nil =>
-    intro rows y B x yI _ hv hl _ _
+    intro rows y B x yI _ hv hl _
     cases rows with
     | nil => simp at hl
     | cons r rs => simp [validRows] at hv
   | cons ops os ih =>
-    intro rows y B x yI hstart hv hl hlen hst
+    intro rows y B x yI hstart hv hl hlen
     cases rows with
     | nil => simp [validRows] at hv
     | cons r rs =>
@@ -244,8 +242,8 @@ theorem loop16_rows (w width : Nat) (hw : w ≤ width) (hpos : 0 < width) :
         intro h; subst h; simp [unpack] at hun; subst hun; simp at hr; omega
       have hz : zeros ((y + 1) * width) = zeros (y * width) ++ rowImg width 0 width [] := by
         rw [rowImg_nil _ _ _ (by omega), ← zeros_add]; congr 1; rw [Nat.add_mul]; simp
-      obtain ⟨x1, y1, hdone, hstep⟩ := loop16_ops w width y (zeros (y * width)) B (by simp) hw (packed os.flatten) ops [] x yI
-        hstart hvo hne (hst ops (by simp)) (by simp [hun, hr])
+      obtain ⟨x1, y1, hdone, hstep⟩ := loop16_ops width y (zeros (y * width)) B (by simp) (packed os.flatten) ops [] x yI
+        hstart hvo hne (by simp [hun, hr])
       simp only [bufP, List.nil_append] at hstep
       have hpk : packed (ops :: os).flatten = packed ops ++ packed os.flatten := by simp [packed]
       rw [hpk, hz]
@@ -269,7 +267,7 @@ theorem loop16_rows (w width : Nat) (hw : w ≤ width) (hpos : 0 < width) :
           rcases hdone with ⟨hx, hy1⟩ | ⟨hx, hy1⟩
           · exact Or.inl ⟨hx, by rw [hy1]; omega⟩
           · exact Or.inr ⟨rfl, hx, by rw [hy1]; omega⟩
-        have := ih rs y' (r ++ B) x1 y1 hstart' hvr hl' (fun r' h => hlen r' (by simp [h])) (fun o h => hst o (by simp [h]))
+        have := ih rs y' (r ++ B) x1 y1 hstart' hvr hl' (fun r' h => hlen r' (by simp [h]))
         rw [this]
         simp [List.append_assoc]
 
